@@ -284,14 +284,17 @@ Proof.
   intro H. induction t; simpl; try reflexivity; try (rewrite IHt; reflexivity).
   - now rewrite H.
   - rewrite IHt1, IHt2. reflexivity.
-  - now rewrite H.
   - rewrite IHt1, IHt2. reflexivity.
 Qed.
 
-Lemma field_edge_ok p ns c x : wf_ann (f_ann x) = true -> leaf_ok p (f_ann x) = true -> locals_in ns (f_ann x) = true ->
+(* a forward reference to a local class is found in the diagram, under its own name *)
+Definition locals_res (p : prog) (ns : list name) (t : ty) : Prop :=
+  match seen_through t with FwdLocal n => diagram_lookup p ns n = Some n | _ => True end.
+
+Lemma field_edge_ok p ns c x : wf_ann (f_ann x) = true -> leaf_ok p (f_ann x) = true -> locals_res p ns (f_ann x) ->
   field_edge_with p ns (fun n => n) c x = Ok (field_edges ns c x).
 Proof.
-  destruct x as [n pr t d df]. unfold field_edge_with, field_edges, target, locals_in. cbn [f_ann f_name f_default f_factory].
+  destruct x as [n pr t d df]. unfold field_edge_with, field_edges, target, locals_res. cbn [f_ann f_name f_default f_factory].
   intros W L Hl.
   destruct t as [b|c'|e|a|k a|a|n'|a|a|k v|o| |n'|pp u1 u2]; try discriminate W;
     try (destruct b; try discriminate W; reflexivity);
@@ -304,10 +307,10 @@ Proof.
     destruct (find_decl p n') as [d'|]; try discriminate L; destruct (d_kind d'); cbn; try rewrite Hl; reflexivity.
 Qed.
 
-Lemma resolve_ok p ns t : wf_ann t = true -> leaf_ok p t = true -> locals_in ns t = true ->
+Lemma resolve_ok p ns t : wf_ann t = true -> leaf_ok p t = true -> locals_res p ns t ->
   exists rt, resolve p ns (fun n => n) t = Ok rt.
 Proof.
-  unfold locals_in. intros W L Hl.
+  unfold locals_res. intros W L Hl.
   destruct t as [b|c'|e|a|k a|a|n'|a|a|k v|o| |n'|pp u1 u2]; try discriminate W;
     try (eexists; reflexivity);
     try (unfold leaf_ok in L; cbn in L; cbn in Hl; cbn; try rewrite Hl; unfold resolve_name;
@@ -414,27 +417,78 @@ Section Build.
     rewrite (tab_correct c (Hcs_decl c Hc) x). tauto.
   Qed.
 
+  Lemma unique_py_spec h : unique_py p h = true ->
+    forall d, In d p -> d_pyname d = pyname_of p h -> d_name d = h.
+  Proof.
+    unfold unique_py. rewrite forallb_forall. intros H d Hd E. specialize (H d Hd).
+    apply orb_true_iff in H as [H|H].
+    - apply negb_true_iff, Pos.eqb_neq in H. contradiction.
+    - now apply Pos.eqb_eq.
+  Qed.
+
+  (* a name with a unique __name__ that is looked up among the diagram's classes: only itself can be found *)
+  Lemma lookup_unique h m : unique_py p h = true -> diagram_lookup p cs h = Some m -> m = h.
+  Proof.
+    intros U. unfold diagram_lookup.
+    destruct (rev (filter (fun m0 => Pos.eqb (pyname_of p m0) (pyname_of p h)) cs)) as [|m' r] eqn:E; [discriminate|].
+    intro H. injection H as <-.
+    assert (Hin : In m' (filter (fun m0 => Pos.eqb (pyname_of p m0) (pyname_of p h)) cs)) by (apply in_rev; rewrite E; simpl; auto).
+    apply filter_In in Hin as [Hc Hp]. apply Pos.eqb_eq in Hp.
+    apply Hcs_decl in Hc. unfold names_of in Hc. apply in_map_iff in Hc as [d [Hd1 Hd2]].
+    assert (F : find_decl p m' = Some d) by (apply find_decl_In; auto).
+    unfold pyname_of in Hp at 1. rewrite F in Hp. rewrite <- Hd1. now apply (unique_py_spec h U d).
+  Qed.
+  Lemma lookup_self h : unique_py p h = true -> In h cs -> diagram_lookup p cs h = Some h.
+  Proof.
+    intros U Hc. destruct (diagram_lookup p cs h) as [m|] eqn:E.
+    - f_equal. now apply lookup_unique.
+    - unfold diagram_lookup in E.
+      destruct (rev (filter (fun m0 => Pos.eqb (pyname_of p m0) (pyname_of p h)) cs)) as [|m' r] eqn:E'; [|discriminate].
+      assert (Hin : In h (filter (fun m0 => Pos.eqb (pyname_of p m0) (pyname_of p h)) cs)).
+      { apply filter_In. split; auto. apply Pos.eqb_refl. }
+      apply in_rev in Hin. rewrite E' in Hin. destruct Hin.
+  Qed.
+
+  Let Huniq : (forall d h, In d p -> In h (d_hidden d) -> unique_py p h = true)
+              /\ (forall x, In x (all_fields p) -> match seen_through (f_ann x) with FwdLocal n => unique_py p n = true | _ => True end).
+  Proof.
+    pose proof Hwf as H. unfold wf_prog in H. repeat (apply andb_true_iff in H as [H ?]).
+    split.
+    - intros d h Hd Hh. rewrite forallb_forall in H1. specialize (H1 d Hd). rewrite forallb_forall in H1. auto.
+    - intros x Hx. rewrite forallb_forall in H0. specialize (H0 x Hx). destruct (seen_through (f_ann x)); auto.
+  Qed.
+
   Lemma field_facts x : In x (all_fields p) ->
-    wf_ann (f_ann x) = true /\ leaf_ok p (f_ann x) = true /\ locals_in cs (f_ann x) = true.
+    wf_ann (f_ann x) = true /\ leaf_ok p (f_ann x) = true /\ locals_res p cs (f_ann x).
   Proof.
     intro Hx. destruct Hparts as [_ [_ H]]. rewrite forallb_forall in H.
     specialize (H x Hx). apply andb_true_iff in H as [H1 H2]. repeat split; auto.
     pose proof Hcs as H0. unfold wf_classes in H0. repeat (apply andb_true_iff in H0 as [H0 ?]).
-    rewrite forallb_forall in H0. auto.
+    rewrite forallb_forall in H0. specialize (H0 x Hx). unfold locals_in in H0. unfold locals_res.
+    destruct Huniq as [_ U]. specialize (U x Hx).
+    destruct (seen_through (f_ann x)); auto. apply lookup_self; auto. now apply mem_In.
   Qed.
 
-  (* no two classes of a well-formed program share a __name__: the retry's namespace shadows nothing *)
+  Lemma unresolved_hidden c m : In m (unresolved p c) -> exists d, In d p /\ In m (d_hidden d).
+  Proof.
+    unfold unresolved. intro H. apply in_flat_map in H as [k [_ H]]. apply in_flat_map in H as [f [_ H]].
+    apply filter_In in H as [_ H]. apply mem_In in H. unfold hidden_of in H.
+    destruct (find_decl p k) as [d|] eqn:E; [|destruct H]. apply find_decl_In in E as [E _]; eauto.
+  Qed.
+
+  (* the names the retry has to supply have a unique __name__: re-binding them shadows nothing *)
   Lemma sh_id c n : sh_of p cs c n = n.
   Proof.
-    unfold sh_of. destruct (needs_retry p c); auto. unfold shadow.
-    assert (Hp : forall m, pyname_of p m = m).
-    { intro m. unfold pyname_of. destruct (find_decl p m) as [d|] eqn:E; auto.
-      apply find_decl_In in E as [E1 E2]; auto.
-      pose proof Hwf as H. unfold wf_prog in H. apply andb_true_iff in H as [_ H]. rewrite forallb_forall in H.
-      specialize (H d E1). apply Pos.eqb_eq in H. congruence. }
-    assert (G : forall l, (forall m, In m l -> m = n) -> match rev l with m :: _ => m | [] => n end = n).
-    { intros l Hl. destruct (rev l) as [|m r] eqn:E; auto. apply Hl. apply in_rev. rewrite E. simpl; auto. }
-    apply G. intros m Hm. apply filter_In in Hm as [_ Hm]. rewrite !Hp in Hm. now apply Pos.eqb_eq in Hm.
+    unfold sh_of. destruct (existsb _ (unresolved p c)) eqn:X; auto.
+    apply existsb_exists in X as [m [Hm E]]. apply Pos.eqb_eq in E.
+    apply unresolved_hidden in Hm as [d [Hd Hh]]. destruct Huniq as [U _]. specialize (U d m Hd Hh).
+    unfold shadow. destruct (find_decl p n) as [dn|] eqn:F; auto.
+    destruct (diagram_lookup p cs n) as [m'|] eqn:L; auto.
+    assert (P : pyname_of p n = d_pyname dn) by (unfold pyname_of; rewrite F; reflexivity).
+    apply find_decl_In in F as [F1 F2]; auto.
+    assert (Hn : n = m).
+    { rewrite <- F2. apply (unique_py_spec m U dn F1). congruence. }
+    rewrite Hn in L |- *. exact (lookup_unique m m' U L).
   Qed.
 
   Lemma assoc_edges_ok : assoc_edges p cs = Ok assoc_list.
@@ -590,18 +644,21 @@ Lemma example_in_fragment :
   = Ok (mk_graph [4; 3; 2] [mk_edge EInh 2 4 1; mk_edge EAssoc 4 3 6; mk_edge EAssoc 2 3 6])%positive.
 Proof. repeat split; vm_compute; reflexivity. Qed.
 
-(* outside the fragment (open finding C17-d): namesakes and the retry.  Module 1: A { p : Optional["X"]; q : Optional["Z"] } and
-   X, where Z is imported under TYPE_CHECKING only; module 2: another class X (4, __name__ of 3) and Z.  The retry's
-   namespace {__name__: class} of the whole diagram shadows module 1's own X by the namesake listed last. *)
+(* regression (C17-d, repaired by cfad88b): namesakes and the retry.  Module 1: A { p : Optional["X"]; q : Optional["Z"] }
+   and X, where Z is imported under TYPE_CHECKING only; module 2: another class X (4, __name__ of 3) and Z.  The retry as it
+   was put {__name__: class} of the whole diagram into the local namespace, which shadowed module 1's own X by the namesake
+   listed last; now only the missing name Z goes there, the program is in the fragment and both list orders give A.p -> X. *)
 Definition namesake_prog : prog :=
   [ Build_decl 3 DDataclass [] [Build_fdecl 8 false (Builtin BInt) true false] [] 3;
     Build_decl 2 DDataclass [] [Build_fdecl 6 false (Optional (Fwd 3)) true false; Build_fdecl 7 false (Optional (Fwd 5)) true false] [5] 2;
     Build_decl 4 DDataclass [] [Build_fdecl 9 false (Builtin BInt) true false] [] 3;
     Build_decl 5 DDataclass [] [Build_fdecl 10 false (Builtin BInt) true false] [] 5 ]%positive.
-Lemma namesake_refuted :
-  build namesake_prog [2; 3; 4; 5]%positive
-    = Ok (mk_graph [2; 3; 4; 5] [mk_edge EAssoc 2 4 6; mk_edge EAssoc 2 5 7])%positive
-  /\ g_edges (spec_graph namesake_prog [2; 3; 4; 5]%positive) = [mk_edge EAssoc 2 3 6; mk_edge EAssoc 2 5 7]%positive
+Lemma namesake_regression :
+  resolve namesake_prog [2; 3; 4; 5]%positive (sh_of_old namesake_prog [2; 3; 4; 5] 2)%positive (Optional (Fwd 3%positive))
+    = Ok (Optional (Cls 4%positive))
+  /\ wf_prog namesake_prog = true /\ wf_classes namesake_prog [2; 3; 4; 5]%positive = true
+  /\ build namesake_prog [2; 3; 4; 5]%positive
+    = Ok (mk_graph [2; 3; 4; 5] [mk_edge EAssoc 2 3 6; mk_edge EAssoc 2 5 7])%positive
   /\ build namesake_prog [2; 4; 3; 5]%positive
     = Ok (mk_graph [2; 4; 3; 5] [mk_edge EAssoc 2 3 6; mk_edge EAssoc 2 5 7])%positive.
 Proof. repeat split; vm_compute; reflexivity. Qed.
